@@ -1,14 +1,9 @@
 From Coq Require Import List String Ascii Bool Arith.
 Import ListNotations.
-Require Import SDJ.Json SDJ.Model2 SDJ.T2h SDJ.T2m.
+Require Import SDJ.Json SDJ.Model2 SDJ.Restore2.
 Local Open Scope string_scope.
 
 (* Verifier::verify / Holder::verify after signature checking: restore, then remove_digests *)
-Definition remove_digests (j : json) : json :=
-  match j with
-  | JObj kvs => strip (JObj (filter (fun kv => negb (String.eqb (fst kv) "_sd_alg")) kvs))
-  | _ => strip j end.
-
 Definition verify_claims (H : string -> string) (dec : string -> dec_result) (show_nat : nat -> string)
   (payload : json) (L : list string) : res (json * list (string * option string * json)) :=
   match restore_disclosures H dec show_nat payload L with
